@@ -375,7 +375,9 @@ class TreeLikelihoodModel(CallableModel):
                 probs,
             )
 
-            if torch.any(torch.isinf(log_p)):
+            if torch.any(torch.isinf(log_p)) or self._site_underflow(
+                frequencies, probs
+            ):
                 self.rescale = True
                 log_p = calculate_treelikelihood_discrete_safe(
                     self.partials,
@@ -408,7 +410,9 @@ class TreeLikelihoodModel(CallableModel):
                 probs,
             )
 
-            if torch.any(torch.isinf(log_p)):
+            if torch.any(torch.isinf(log_p)) or self._site_underflow(
+                frequencies, probs
+            ):
                 self.rescale = True
                 log_p = calculate_treelikelihood_tip_states_discrete_rescaled(
                     self.partials,
@@ -419,6 +423,13 @@ class TreeLikelihoodModel(CallableModel):
                     probs,
                 )
         return log_p
+
+    def _site_underflow(self, frequencies, probs) -> bool:
+        """True if a site likelihood of the plain pass is below the smallest normal
+        number: it was computed from denormalised partials and has lost precision."""
+        root = self.tree_model.postorder[-1][0]
+        site_p = frequencies @ torch.sum(probs * self.partials[root], -3)
+        return bool(torch.any(site_p < torch.finfo(site_p.dtype).tiny))
 
     def handle_parameter_changed(self, variable, index, event):
         pass
